@@ -213,6 +213,19 @@ def countsync(run, fx):
                     hops += 1
                 from_res = val['k'] == 'DeclRefExpr' and val.get('vid') in res_vids
                 field_writes[lhs['d']].append((e, from_res))
+    # `m_numGlyphs = n; m_numCharinfo = m_numGlyphs;` -- the second count copied from the first, just set from the result
+    for field, ws in field_writes.items():
+        for k_, (e, fr) in enumerate(ws):
+            if fr:
+                continue
+            val = fn.strip_all_casts(e['c'][1])
+            if val['k'] == 'MemberExpr' and val.get('d') in field_writes and val['d'] != field:
+                src = [w for (w, f2) in field_writes[val['d']] if f2 and
+                       ((fn.block_of[w['i']] == fn.block_of[e['i']] and fn.pos_of[w['i']] < fn.pos_of[e['i']]) or
+                        (fn.block_of[w['i']] != fn.block_of[e['i']] and fn.block_of[w['i']] in fn.dominators()[fn.block_of[e['i']]]))]
+                others = [w for (w, f2) in field_writes[val['d']] if not f2]
+                if src and not others:
+                    ws[k_] = (e, True)
     pdom = fn.postdominators()
     for field, ws in field_writes.items():
         short = field.split('::')[-1]
